@@ -69,6 +69,7 @@ CLAIMED = {
 REASONS = {}
 # clauses of a property that are another property's subject are decided by running that rule set as part of this check
 INCLUDES = {
+    "C11": "Which replies are disallowed at a step is the reference protocol: the fail-stop clause is decided by running C10's step rule here too, as C11.failstop(..).",
     "C01": "The stream form of the two encodings (Frame::write / Frame::read) is decided here too, by running C15's rule set as C01.stream(..).",
     "C02": "Also runs C15's rules on Frame::read (the second decoding entry point hands the unmodified line to from_bytes), as C02.read(..).",
     "C05": "The frame<->bytes leg is decided by running C01's codec rule set as part of this check, as C05.wire(..).",
